@@ -52,6 +52,10 @@ Section Mono.
     induction n as [|n IH]; intros m Hle R f e; simpl; [discriminate|].
     destruct m as [|m]; [lia|]. simpl.
     destruct (nth_error (flows g) f) as [fl|]; [|discriminate].
+    destruct (match closes_of g f with
+              | Some l => if existsb (Nat.eqb l) R then None else Some l
+              | None => None
+              end) as [l|]; [apply IH; lia|].
     destruct (pnames_with canon g (names_pure canon g n) R fl) as [pe|] eqn:E; [|discriminate].
     rewrite (pnames_with_mono _ _ R fl pe (IH m ltac:(lia)) E). auto.
   Qed.
@@ -82,8 +86,13 @@ Section NoLoops.
 
   Lemma parents_direct f fl : nth_error (flows g) f = Some fl -> forallb is_direct (parents fl) = true.
   Proof.
-    intros H. unfold no_loopsb in Hnl. rewrite forallb_forall in Hnl. apply Hnl.
-    eapply nth_error_In; eauto.
+    intros H. unfold no_loopsb in Hnl. destruct (loops g); [|discriminate].
+    rewrite forallb_forall in Hnl. apply Hnl. eapply nth_error_In; eauto.
+  Qed.
+
+  Lemma closes_none f : closes_of g f = None.
+  Proof.
+    unfold closes_of, no_loopsb in *. destruct (loops g); [reflexivity|discriminate].
   Qed.
 
   Definition clean (st : mstate) : Prop :=
@@ -213,6 +222,7 @@ Section NoLoops.
   Proof.
     induction fuel as [|k IH]; intros f st e st' Hinv; simpl; [discriminate|].
     destruct (nth_error (flows g) f) as [fl|] eqn:Hf; [|discriminate].
+    rewrite closes_none.
     intros H.
     refine (memo_call_ok (KNames f) _ st e st'
              (fun e => exists n, names_pure canon g n [] f = Some e) Hinv _ _ H).
@@ -222,7 +232,7 @@ Section NoLoops.
         as [[pe st3]|] eqn:E; [|discriminate].
       destruct (par_call_ok _ f fl _ _ _ IH Hf Hinv1 E) as [Hk [n Hn]].
       inversion Hb; subst. split; [exact Hk|]. split; [reflexivity|].
-      exists (S n). simpl. rewrite Hf, Hn. reflexivity.
+      exists (S n). simpl. rewrite Hf, closes_none, Hn. reflexivity.
   Qed.
 
   Lemma names_at_m_ok fuel f idx st e st' : inv st ->
